@@ -53,10 +53,14 @@ func GetLengthLimitedID(fixedPrefix, suffix string, maxLength int) string {
 	prefixLen := len(fixedPrefix)
 	suffixLen := len(suffix)
 	totalLen := prefixLen + suffixLen
-	if totalLen > maxLength || (totalLen == maxLength && suffix[0:1] == shortenedPrefix) {
-		// Either it's just too long, or it's exactly the right length but it happens to
-		// start with the character that we use to denote a shortened string, which could
-		// result in a clash.  Hash the value and truncate...
+	// Length of the full (untruncated) hash.  If maxLength leaves room for more than that then
+	// shortened IDs are fixedPrefix + shortenedPrefix + the full hash.
+	fullHashLen := base64.RawURLEncoding.EncodedLen(sha256.Size)
+	shortenedSuffixLen := min(maxLength-prefixLen, 1+fullHashLen)
+	if totalLen > maxLength || (suffixLen == shortenedSuffixLen && suffix[0:1] == shortenedPrefix) {
+		// Either it's just too long, or it's exactly the length of a shortened string and it
+		// happens to start with the character that we use to denote a shortened string, which
+		// could result in a clash.  Hash the value and truncate...
 		hasher := sha256.New()
 		_, err := hasher.Write([]byte(suffix))
 		if err != nil {
@@ -68,6 +72,8 @@ func GetLengthLimitedID(fixedPrefix, suffix string, maxLength int) string {
 			log.Panicf("GetLengthLimitedID: maxLength %d is too small for prefix %q (length %d); "+
 				"need at least %d", maxLength, fixedPrefix, prefixLen, prefixLen+2)
 		}
+		// The hash may be shorter than the space available (large maxLength, short prefix).
+		charsLeftForHash = min(charsLeftForHash, len(hash))
 		return fixedPrefix + shortenedPrefix + hash[0:charsLeftForHash]
 	}
 	// No need to shorten.
